@@ -31,7 +31,7 @@ theorem lock_of_break_both (F : Frame inpS inpW δ) (hcl : Closed inpS inpW δ) 
     (h : MRel δ d 0 ab sm ms mw) (hP : ab.P = true)
     (hfl : ms.c.isLast = false → (fs st).2.le ab.boundary = true ∧ (ab.Sn = true → ab.St = true))
     (hsm : sm = .none ∨ (sm = .inSeq ∧ hasSeq sd = true))
-    (hdebt : 0 < d → hasEoc sd = true) (hK : K d ms.x.sink mw.x.sink) :
+    (hdebt : 0 < d → hasEoc sd = true) (hK : K d ms.x.sink mw.x.sink) (hd0 : ms.c.isLast = true → d = 0) :
     LockOut env.tbl fs inpW δ K Loc true (breakOnEndOfInput inpS ms) (breakOnEndOfInput inpW mw) := by
   have hsm' : sm ≠ .stale := by
     rcases hsm with h | ⟨h, _⟩ <;> rw [h] <;> intro hh <;> cases hh
@@ -39,7 +39,8 @@ theorem lock_of_break_both (F : Frame inpS inpW δ) (hcl : Closed inpS inpW δ) 
   · exact Or.inl hp
   · right
     rw [h1, h2]
-    refine ⟨rfl, d, h3, h4, by rw [h5, h6]; exact h.sim, by rw [h5, h6]; exact h.pc, fun hl => ?_⟩
+    refine ⟨rfl, d, h3, h4, by rw [h5, h6]; exact h.sim, by rw [h5, h6]; exact h.pc, fun hl => ?_,
+      fun hl => hd0 (by rw [← breakOnEndOfInput_isLast inpS ms]; exact hl)⟩
     have hl' : ms.c.isLast = false := by
       have := breakOnEndOfInput_isLast inpS ms
       rw [← this]; exact hl
@@ -167,7 +168,7 @@ theorem runSeqArms_lock (F : Frame inpS inpW δ) (hops : OpsSim env.ops inpS inp
                 exact ⟨_, rfl, lock_of_break_both F he2 (by rw [hcs]; exact cx) he rfl
                   (fun _ => ⟨by rw [Ab.inStep_boundary cx.ok.p2]; rw [Ab.le_iff]; simp, fun g => cx.ok.sn2 g⟩)
                   (Or.inr ⟨rfl, hinSeq⟩)
-                  (fun h => absurd h (Nat.lt_irrefl 0)) (by rw [hxs, hxw]; exact hK)⟩
+                  (fun h => absurd h (Nat.lt_irrefl 0)) (by rw [hxs, hxw]; exact hK) (fun _ => rfl)⟩
               · right
                 have hl : ms.c.isLast = false := by
                   cases hh : ms.c.isLast with
